@@ -22,7 +22,7 @@ ID = "C14"
 BUDGET = {"quick": 900, "thorough": 5400}
 CASE_TIMEOUT = 900
 
-CHROMS = ["chr1", "chr2", "chr3"]
+CHROMS = ["chr2", "chr10", "chr11"]  # table order (genomic) differs from the order of the names as strings
 W_DEFAULT = [2.0, 0.5, 1.0, 0.5, 2.0, 1.0]
 P_DEFAULT = [5, 1, 3, 1, 5, 2]
 P_ALT = [1, 1, 1, 1, 1, 1]
